@@ -45,6 +45,17 @@ pub fn probe<T: Ct>(key: &[u8], fill: u8, route: Route) -> Option<DropObs> {
         // from_enc_key scrubs between building the Enc instance and converting it
         Route::FromRef => T::from_enc_key(key, true)?,
         Route::FromVal => T::from_enc_key(key, false)?,
+        // an instance keyed differently is overwritten by clone_from: neither the old nor the new key may survive the drop
+        Route::CloneFrom => {
+            let orig = T::new_slice(key).ok()?;
+            let other_key: Vec<u8> = key.iter().map(|b| b ^ 0x5A).collect();
+            let mut other = T::new_slice(&other_key).ok()?;
+            scrub();
+            if !other.c_clone_from(&orig) {
+                return None;
+            }
+            other
+        }
         Route::CloneOfFrom => {
             let orig = T::from_enc_key(key, true)?;
             scrub();
